@@ -21,6 +21,10 @@ tsingle = z3.Function("tsingle", I, TupS)        # (x,)
 twith = z3.Function("twith", TupS, I, TupS)      # the canonical tuple with the members of k and x (specification only)
 EMPTY_TUP = z3.Const("EMPTY_TUP", TupS)          # ()
 
+# prefix sum over parallel lists (edges, weights): sum of the weights (1 when no weight list) of the first j hyperedges whose
+# canonical form is k -- a specification function defined by its fold axioms
+PSUM = z3.Function("psum", z3.ArraySort(I, TupS), B, z3.ArraySort(I, R), I, TupS, R)
+
 EMPTY_META = z3.Const("EMPTY_META", MetaS)
 mhas = z3.Function("mhas", MetaS, FieldS, B)
 mget = z3.Function("mget", MetaS, FieldS, ValS)
@@ -29,6 +33,7 @@ mdel = z3.Function("mdel", MetaS, FieldS, MetaS)
 
 _k, _k2 = z3.Const("_k", TupS), z3.Const("_k2", TupS)
 _n, _j, _x = z3.Int("_n"), z3.Int("_j"), z3.Int("_x")
+_ae, _aw, _hw = z3.Const("_ae", z3.ArraySort(I, TupS)), z3.Const("_aw", z3.ArraySort(I, R)), z3.Bool("_hw")
 _m = z3.Const("_m", MetaS)
 _f, _g = z3.Const("_f", FieldS), z3.Const("_g", FieldS)
 _v = z3.Const("_v", ValS)
@@ -71,6 +76,10 @@ THEORY = {
     "tfilter_strict": FA([_k, _x], z3.Implies(strict(_k), strict(tfilter_ne(_k, _x))), tfilter_ne(_k, _x)),
     "tfilter_len": FA([_k, _x], z3.Implies(distinct_t(_k),
                       tlen(tfilter_ne(_k, _x)) == tlen(_k) - z3.If(tmem(_k, _x), 1, 0)), tfilter_ne(_k, _x)),
+    # ---- prefix sums over parallel lists
+    "psum_0": FA([_ae, _hw, _aw, _k], PSUM(_ae, _hw, _aw, 0, _k) == 0, PSUM(_ae, _hw, _aw, 0, _k)),
+    "psum_step": FA([_ae, _hw, _aw, _j, _k], z3.Implies(_j >= 0, PSUM(_ae, _hw, _aw, _j + 1, _k) == PSUM(_ae, _hw, _aw, _j, _k) +
+                    z3.If(canon(_ae[_j]) == _k, z3.If(_hw, _aw[_j], z3.RealVal(1)), z3.RealVal(0))), PSUM(_ae, _hw, _aw, _j + 1, _k)),
     # ---- canonical tuple k + {x} (inverse of tfilter_ne on canonical tuples)
     "twith_def": FA([_k, _x], z3.Implies(z3.And(strict(_k), z3.Not(tmem(_k, _x))),
                     z3.And(strict(twith(_k, _x)), tlen(twith(_k, _x)) == tlen(_k) + 1, tfilter_ne(twith(_k, _x), _x) == _k)), twith(_k, _x)),
